@@ -3,6 +3,7 @@ package rules
 import (
 	"fmt"
 	"go/ast"
+	"go/token"
 	"go/types"
 
 	"rocheck/internal/check"
@@ -107,7 +108,7 @@ func C16() *check.Property {
 		Patterns: CorePatterns,
 		Scope:    []string{ro},
 		Rules: []check.Rule{ruleRelease(), ruleTeardownAllRun(), ruleCtxWatch(), ruleCtxDoneTerminates(), ruleQueueFIFO(), ruleCtxPairing(),
-			ruleTerminalPropagation(), ruleDeadEmission(), ruleNoEmitUnderTeardownLock(), ruleStateLevel(), ruleWatchdogRearm(), ruleTimerDequeueCoupled(), ruleConsumeFlag(), ruleBuildTimeState()},
+			ruleTerminalPropagation(), ruleDeadEmission(), ruleNoEmitUnderTeardownLock(), ruleStateLevel(), ruleWatchdogRearm(), ruleTimerDequeueCoupled(), ruleConsumeFlag(), ruleBuildTimeState(), ruleCtxProvenance(), ruleTimeShiftViaTimer()},
 		Explanation: "Narrow structural claim. Every clause of C16 that compares wall-clock instants or counts events per window (never early, at most one per window/tick, Timeout only after a full quiet period) is NOT decided: no sound static argument bounds those. " +
 			"Decided are the clauses that are visible in the code's shape: (fall silent) every timer, ticker and looping goroutine of every operator is stopped / signalled by its teardown, on every path of the teardown and even when an earlier release panics (RELEASE, TEARDOWN-ALL-RUN); " +
 			"the context-aware sources watch the subscriber context in every blocking select and the cancellation case ends the output (CTX-WATCH, CTX-DONE-TERMINATES); (never reorder) the queues of Delay and of the combining/buffering operators are filled at the tail and read at the head " +
@@ -118,5 +119,48 @@ func C16() *check.Property {
 		Floors:      map[string]int{"acquisitions": 150, "ctx_watch_selects": 4, "ctx_done_cases": 5, "queue_head_reads": 15, "complete_slots_checked": 120},
 		Controls: map[string]string{"zz_verif_controls_c03.go": roControl(controlsC03 + controlsC03b), "zz_verif_controls_c05.go": roControl(controlsC05),
 			"zz_verif_controls_c04.go": roControl(controlsC04), "zz_verif_controls_c06.go": roControl(controlsC06), "zz_verif_controls_c09.go": roControl(controlsC09 + controlsC09b), "zz_verif_controls_c12.go": roControl(controlsC12)},
+	}
+}
+
+// TIME-SHIFT-VIA-TIMER: the time-shifting operator has no fast path.
+func ruleTimeShiftViaTimer() check.Rule {
+	return check.Rule{
+		Name:        "TIME-SHIFT-VIA-TIMER",
+		FamilyShape: true,
+		Doc:         "in the operator whose definition is a time shift (Delay: listed in asyncByDefinition as re-emitting from timer callbacks), every notification sent to the destination — values, Error and Complete alike — is sent from a timer callback: a notification forwarded directly from an upstream callback reaches the destination without its delay (a Complete that skips the timer when the queue happens to be empty)",
+		Run: func(c *check.Ctx) {
+			m := c.M
+			n := 0
+			for _, sc := range m.SCs {
+				if sc.String() != "ro.Delay" {
+					continue
+				}
+				armed := c.Armed(sc)
+				bad := 0
+				for _, e := range sc.Emits {
+					if !e.ToDest {
+						continue
+					}
+					n++
+					timer := false
+					for cx := e.Ctx; cx != nil; cx = cx.Parent {
+						if cx.Kind == model.KTimer {
+							timer = true
+						}
+					}
+					if !timer {
+						bad++
+						c.Report(armed, fmt.Sprintf("%s/direct", e.Key), e.Pos, "this %s notification is sent to the destination outside a timer callback: it is not delayed", model.SlotNames[e.Kind])
+					}
+				}
+				if bad == 0 && armed {
+					c.OK(sc.String()+"/via-timer", sc.Lit.Pos(), "every notification to the destination is sent from a timer callback")
+				}
+			}
+			c.Inc("time_shift_emissions", n)
+			if n == 0 {
+				c.Undecided("ro.Delay/via-timer", token.NoPos, "the time-shift operator Delay (or its emissions) was not found")
+			}
+		},
 	}
 }
